@@ -747,7 +747,7 @@ class BroadcastJoin(Merge, PartitionsFiltered):
             "right_on": self.right_on,
         }
         dsk = {}
-        for part_out in self._partitions:
+        for global_part, part_out in enumerate(self._partitions):
             if self.how != "inner":
                 dsk[(split_name, part_out)] = (
                     _split_partition,
@@ -782,7 +782,8 @@ class BroadcastJoin(Merge, PartitionsFiltered):
                     kwargs,
                 )
                 _concat_list.append(inter_key)
-            dsk[(self._name, part_out)] = (_concat_wrapper, _concat_list)
+            # Output keys are numbered by position in the selection
+            dsk[(self._name, global_part)] = (_concat_wrapper, _concat_list)
         return dsk
 
 
